@@ -4,6 +4,8 @@ DimsGen == {<<2, 2>>, <<3, 2>>}
 DimsSim == {<<3, 2>>, <<2, 3>>, <<4, 3>>}
 CoordsGen == {-1, 0, 1, 2}
 CoordsSim == {0, 1, 2}
+DimsHist == {<<2, 2>>}
+CoordsHist == {0}
 LNone == {<<>>}
 LAll == {<<>>, <<"comp", "rle">>, <<"comp", "deflate">>, <<"comp", "skphuff">>, <<"chunk", 1, 1>>, <<"chunk", 2, 1>>, <<"chunk", 2, 2, 1>>, <<"chunk", 3, 2>>,
          <<"chunkcomp", "rle", 2, 1>>, <<"chunkcomp", "deflate", 2, 2>>, <<"nt", "int16">>, <<"nt", "int32">>, <<"nt", "float32">>,
